@@ -579,6 +579,55 @@ def _collect_helpers(funcs, kind_of, owner):
     return out
 
 
+_PROPS = None
+
+
+def baseline_property_attrs():
+    global _PROPS
+    if _PROPS is None:
+        import json
+
+        p = Path(__file__).resolve().parent.parent / "baseline" / "property_attrs.json"
+        _PROPS = json.loads(p.read_text()) if p.exists() else {}
+    return _PROPS
+
+
+def attribute_renames(trees):
+    """Private attributes that a simple public property exposed in the audited tree and that
+    were since renamed: {new_name: audited_name}.  Decided over all modules at once; a rename
+    is only mapped back when neither name is ambiguous."""
+    base = baseline_property_attrs()
+    audited_names = {a for props in base.values() for a in props.values()}
+    ren = {}
+    for tree in trees:
+        for c in ast.walk(tree):
+            if not isinstance(c, ast.ClassDef) or c.name not in base:
+                continue
+            for m in c.body:
+                if isinstance(m, ast.FunctionDef) and m.name in base[c.name] and any(ast.unparse(d) == "property" for d in m.decorator_list):
+                    body = _strip_doc(m.body)
+                    if len(body) == 1 and isinstance(body[0], ast.Return) and isinstance(body[0].value, ast.Attribute) \
+                            and isinstance(body[0].value.value, ast.Name) and body[0].value.value.id == "self":
+                        new, old = body[0].value.attr, base[c.name][m.name]
+                        if new != old and new.startswith("_") and new not in audited_names:
+                            if ren.get(new, old) != old:
+                                ren[new] = None  # ambiguous
+                            else:
+                                ren[new] = old
+    return {k: v for k, v in ren.items() if v}
+
+
+def apply_attribute_renames(tree, ren):
+    if not ren:
+        return 0
+    n = 0
+    for node in ast.walk(tree):
+        if isinstance(node, ast.Attribute) and node.attr in ren:
+            node.attr = ren[node.attr]
+            n += 1
+    return n
+
+
 def normalize_module(tree: ast.Module):
     """In-place normalisation of a parsed module; returns (number of inlined call
     sites, set of helper qualnames that were inlined)."""
